@@ -2,7 +2,13 @@
 import json, os
 from verifkit import read_lines
 
-REQUIRED = []
+REQUIRED = ["DaeVerif.C06.Props." + n for n in (
+    "tls_sni_found", "tls_sni_sound", "tls_total", "tls_record_total",
+    "sniff_tcp_chunk_invariant", "normalize_ordinary_name", "relay_identity", "sniff_stops_at_deadline",
+    "http_host_found",
+    "quic_sni_sound", "reassembly_keeps_slices", "quic_flight_found",
+    "unprotect_then_restore", "udp_data_kept", "udp_not_withheld_when_complete",
+)]
 
 
 def run(ctx):
@@ -29,7 +35,10 @@ def run(ctx):
         return 2
     if not ctx.driver("c06drv", ops, model):
         ctx.proof_failures.append("model driver c06drv failed to run")
-    mism = ctx.diff_streams(ops, impl, model, "c06")
+    # what follows " # " on an answer line is internal state (diagnostic only, see DESIGN §8)
+    mism = ctx.diff_streams(ops, impl, model, "c06", canon=lambda l: l.split(" # ", 1)[0])
+    diag = sum(1 for a, b in zip(read_lines(impl), read_lines(model)) if a != b) - len(mism)
+    ctx.cov["internal_state_differences_not_counted"] = max(diag, 0)
     for ln, op, im, mo in mism[:10]:
         ctx.report(f"implementation differs from proved model at line {ln}: impl `{im[:300]}` model `{mo[:300]}`",
                    {"stream": "c06", "line": ln, "op": op, "impl": im, "model": mo,
